@@ -15,6 +15,7 @@ void vp_c02_reserve_attr(const QString *name);
 unsigned vp_c02_nattr(const QDomElement *el);
 void vp_dom_truncate(QDomElement *el, unsigned n);
 bool vp_c02_writer_has_root(void *w);
+void vp_c02_init();   // call first in every entry
 }
 #define C02_L 36   // longest name/namespace of the vocabularies (urn:ietf:params:xml:ns:xmpp-stanzas = 35)
 #define C02_A 12   // longest attribute name / enum value
